@@ -16,8 +16,8 @@ from . import c13
 
 OPS = {1: 'add_track', 2: 'tracks_append', 3: 'tracks_remove', 4: 'msg_append', 5: 'msg_insert',
        6: 'msg_delete', 7: 'msg_time', 8: 'set_tpb', 9: 'set_type', 10: 'iterate', 11: 'length',
-       12: 'merged_track', 13: 'save', 14: 'play', 15: 'msg_attr', 16: 'msg_replace', 17: 'msg_swap'}
-ALL_OPS = '{"add_track", "tracks_append", "tracks_remove", "msg_append", "msg_insert", "msg_delete", "msg_time", "msg_attr", "msg_replace", "msg_swap", "set_tpb", "set_type", "iterate", "length", "merged_track", "play", "save"}'
+       12: 'merged_track', 13: 'save', 14: 'play', 15: 'msg_attr', 16: 'msg_replace', 17: 'msg_swap', 18: 'track_slice', 19: 'track_name'}
+ALL_OPS = '{"add_track", "tracks_append", "tracks_remove", "msg_append", "msg_insert", "msg_delete", "msg_time", "msg_attr", "msg_replace", "msg_swap", "track_slice", "track_name", "set_tpb", "set_type", "iterate", "length", "merged_track", "play", "save"}'
 
 
 def cfg(maxops, memo, opset, emit=True):
@@ -35,6 +35,8 @@ def mk(dt, ident):
     import mido
     if ident == 0:
         return mido.MetaMessage('end_of_track', time=dt)
+    if ident == 200:
+        return mido.MetaMessage('track_name', name='a name', time=dt)
     if ident % 3 == 0:
         return mido.MetaMessage('set_tempo', tempo=250000 + ident, time=dt)
     return mido.Message('note_on', channel=ident // 128, note=ident % 128, time=dt)
@@ -43,6 +45,8 @@ def mk(dt, ident):
 def ident_of(m):
     if m.type == 'end_of_track':
         return 0
+    if m.type == 'track_name':
+        return 200
     if m.type == 'set_tempo':
         return m.tempo - 250000
     if m.type == 'note_on':
@@ -135,6 +139,14 @@ def replay_history(hist):
                 m.note, m.channel = c % 128, c // 128
         elif op == 'msg_replace':
             mid.tracks[a - 1][b - 1] = mk(mid.tracks[a - 1][b - 1].time, c)
+        elif op == 'track_slice':
+            mid.tracks[a - 1] = mid.tracks[a - 1][1:]
+            if type(mid.tracks[a - 1]) is not mido.MidiTrack:
+                return 'slice-type', 'step %d: a slice of a MidiTrack is a %s' % (n, type(mid.tracks[a - 1]).__name__)
+        elif op == 'track_name':
+            mid.tracks[a - 1].name = 'a name'
+            if mid.tracks[a - 1].name == '':
+                return 'track-name', 'step %d: name not set' % n
         elif op == 'msg_swap':
             x, y = mid.tracks[a - 1][b - 1], mid.tracks[a - 1][b]
             x.time, y.time = y.time, x.time
